@@ -63,6 +63,9 @@ type Target struct {
 	Server    int    `json:"server"`
 	RecvToNs  int64  `json:"recv_timeout_ns,omitempty"` // per-target meta receive_timeout
 	BadRecvTo bool   `json:"bad_recv_timeout,omitempty"`
+	// Alt: a second next-hop address (server index + 1; 0 = none). The manager
+	// tries a target's addresses in turn within one attempt.
+	Alt int `json:"alt,omitempty"`
 }
 
 // Act is one fault-actor step: after WaitNs of virtual time do K on target T.
@@ -137,6 +140,11 @@ func (H) Generate(rng *simrt.Rand, prop, tier string) (any, simrt.Config) {
 			t.RecvToNs = int64(time.Duration(1+rng.Intn(10)) * time.Second)
 		}
 		t.BadRecvTo = rng.Chance(0.05)
+		if ns > 1 && rng.Chance(0.3) {
+			if a := rng.Intn(ns); a != t.Server {
+				t.Alt = a + 1
+			}
+		}
 		sc.Targets = append(sc.Targets, t)
 		if rng.Chance(0.8) {
 			sc.InitiallyAdd = append(sc.InitiallyAdd, i)
@@ -491,6 +499,9 @@ func (H) Execute(x *common.Exec, s any) {
 	}
 	tproto := func(t Target) *tpb.Target {
 		p := &tpb.Target{Addresses: []string{addr(t.Server)}}
+		if t.Alt > 0 {
+			p.Addresses = append(p.Addresses, addr(t.Alt-1))
+		}
 		if t.RecvToNs > 0 {
 			p.Meta = map[string]string{"receive_timeout": time.Duration(t.RecvToNs).String()}
 		}
@@ -733,6 +744,11 @@ func (w *world) judge(x *common.Exec, acts [][]*actRec, quietNs int64, atQuiesce
 	for _, c := range cbs {
 		if c.kind == "monitorerror" || c.kind == "connecterror" {
 			x.Fault("callback:" + c.kind)
+		}
+	}
+	for _, t := range sc.Targets {
+		if t.Alt > 0 {
+			x.Fault("target-with-two-next-hop-addresses")
 		}
 	}
 
@@ -1059,7 +1075,7 @@ func (w *world) judge(x *common.Exec, acts [][]*actRec, quietNs int64, atQuiesce
 		}
 		for _, ds := range w.dials {
 			for _, d := range ds {
-				if d.addr != addrOf(sc.Targets[ti].Server) {
+				if d.addr != addrOf(sc.Targets[ti].Server) && (sc.Targets[ti].Alt == 0 || d.addr != addrOf(sc.Targets[ti].Alt-1)) {
 					continue
 				}
 				if d.end.Load() == 0 || d.kind == "ok" && quietNs <= d.until+int64(time.Second) {
